@@ -1247,7 +1247,10 @@ class Executor:
     def e_Await(self, e, env):
         v = self.expr(e["e"], env)
         if isinstance(v, Closure) and v.is_async:
-            return self.call_closure(v, [])
+            v = self.call_closure(v, [])
+        hook = getattr(self, "await_hook", None)
+        if hook is not None:
+            hook(self, e)      # a driver may end the path here (the future is dropped at this suspension point)
         return v
 
     def e_If(self, e, env):
@@ -1410,6 +1413,8 @@ class Executor:
             t = env.declared_type(e["l"]["path"])
             if t:
                 self.type_hint = t
+        elif e["l"]["k"] == "Field":
+            self.type_hint = "field:" + str(e["l"]["member"])     # the member's type is not visible; drivers may use its name
         try:
             v = self.expr(e["r"], env)
         finally:
